@@ -16,6 +16,22 @@ def innermost_kmip_frame(tb):
     return best or 'outside-kmip'
 
 
+def exception_digest(et_name, message):
+    """A short, value-free digest of an exception message so that two different defects raising the
+    same exception class in the same function get different mechanism keys."""
+    import re
+    m = re.match(r"'(\w+)' object has no attribute '(\w+)'", message)
+    if m:
+        return '%s.%s' % (m.group(1), m.group(2))
+    m = re.match(r"object of type '(\w+)' has no len", message)
+    if m:
+        return 'len(%s)' % m.group(1)
+    msg = re.sub(r'0x[0-9a-fA-F]+|\d+', 'N', message)
+    msg = re.sub(r"'[^']{12,}'", "'...'", msg)
+    msg = re.sub(r'[^A-Za-z0-9_.() ]+', ' ', msg)
+    return ' '.join(msg.split())[:48]
+
+
 class ErrorCapture(logging.Handler):
     """Collects (logger, level, message, exception class, innermost kmip frame)."""
 
